@@ -115,7 +115,7 @@ class Impl:
         self.srv.lastsave = 0
         self.fake_condition = fake_condition
         if fake_condition:
-            orig = self.srv._new_db
+            orig = self.srv.dbs.default_factory
 
             def new_db():
                 db = orig()
